@@ -1314,6 +1314,12 @@ class Bpsec(AbstractApplication):
         # Report status reason
         failure = []
 
+        bcb_type = BlockConfidentialityBlock._overload_fields[CanonicalBlock]['type_code']
+        for blk in ctr.block_type(bcb_type):
+            if not isinstance(blk.payload, BlockConfidentialityBlock):
+                LOGGER.warning('BCB in block num %s cannot be decoded', blk.block_num)
+                failure.append(StatusReport.ReasonCode.BLOCK_UNINTEL)
+
         confidential_blocks = list(ctr.block_type(BlockConfidentialityBlock))
         for bcb in confidential_blocks:
             LOGGER.debug('Verifying BCB in %d with context %s, targets %s',
@@ -1350,6 +1356,12 @@ class Bpsec(AbstractApplication):
 
         # Report status reason
         failure = []
+
+        bib_type = BlockIntegrityBlock._overload_fields[CanonicalBlock]['type_code']
+        for blk in ctr.block_type(bib_type):
+            if not isinstance(blk.payload, BlockIntegrityBlock):
+                LOGGER.warning('BIB in block num %s cannot be decoded', blk.block_num)
+                failure.append(StatusReport.ReasonCode.BLOCK_UNINTEL)
 
         integ_blocks = list(ctr.block_type(BlockIntegrityBlock))
         for bib in integ_blocks:
